@@ -171,6 +171,123 @@ theorem frozen_only_open {s : St} {r : Nat} {ra : Ra} (hs : Reachable s) (hg : g
     (hf : ra.frozen = true) : ra.tph ≠ 0 ∧ ra.nOpen = 1 :=
   ⟨((reachable_inv hs).get hg).frz hf, ((reachable_inv hs).get hg).opened (((reachable_inv hs).get hg).frz hf)⟩
 
+-- ------------------------------------------------------------------------------------------------ frozen until the next state update
+
+theorem handshake_frozen (ra : Ra) (ph : Nat) (p : Pkt) : (handshake ra ph p).1.frozen = ra.frozen := by
+  rcases handshake_cases ra ph p with ⟨h1, _⟩ | ⟨_, _, _, _, _, _, h2, _⟩
+  · rw [h1]
+  · rw [h2]
+
+/-- one op other than a state update of `r` leaves a frozen canonical client of `r` frozen -/
+theorem step_frozen (s : St) (op : Op) (r : Nat) (ra : Ra) (hg : getRa s r = some ra) (hfz : ra.frozen = true)
+    (hop : ∀ n, op ≠ .update r n) : ∃ ra', getRa (step s op).1 r = some ra' ∧ ra'.frozen = true := by
+  have hrid : ra.id = r := (getRa_mem hg).2
+  have keep : ∃ ra', getRa s r = some ra' ∧ ra'.frozen = true := ⟨ra, hg, hfz⟩
+  have upd : ∀ (r0 : Nat) (ra0 x : Ra), getRa s r0 = some ra0 → x.id = ra0.id →
+      (r0 = r → ra0 = ra → x.frozen = true) → ∃ ra', getRa (setRa s x) r = some ra' ∧ ra'.frozen = true := by
+    intro r0 ra0 x h0 hx hq
+    have hid0 : ra0.id = r0 := (getRa_mem h0).2
+    by_cases hr : r = r0
+    · subst hr
+      have h00 : ra0 = ra := by rw [hg] at h0; cases h0; rfl
+      exact ⟨x, getRa_setRa_same h0 (by rw [hx, hid0]), hq rfl h00⟩
+    · refine ⟨ra, ?_, hfz⟩
+      rw [getRa_setRa_ne s x (by rw [hx, hid0]; exact hr)]
+      exact hg
+  have app : ∀ x : Ra, ∃ ra', getRa { s with ras := s.ras ++ [x] } r = some ra' ∧ ra'.frozen = true := by
+    intro x
+    refine ⟨ra, ?_, hfz⟩
+    unfold getRa at hg ⊢
+    simp only [List.find?_append, hg, Option.some_or]
+  cases op with
+  | create r0 g =>
+    simp only [step, stepCreate]
+    repeat' split
+    all_goals first
+      | exact keep
+      | exact app _
+  | tick dt => exact keep
+  | plainch => exact keep
+  | send c =>
+    simp only [step, stepSend]
+    repeat' split
+    all_goals exact keep
+  | link2 r0 =>
+    simp only [step, stepLink2]
+    repeat' split
+    all_goals exact keep
+  | update r0 n =>
+    simp only [step, stepUpdate]
+    cases hr0 : getRa s r0 with
+    | none => exact keep
+    | some ra0 =>
+      simp only
+      repeat' split
+      all_goals first
+        | exact keep
+        | (refine upd r0 ra0 _ hr0 rfl ?_
+           intro hr _; subst hr
+           exact absurd rfl (hop n))
+  | recv c ph p =>
+    simp only [step, stepRecv]
+    repeat' split
+    all_goals first
+      | exact keep
+      | (rename_i ra0 hr0 _ _
+         refine upd _ ra0 _ hr0 (handshake_chan ra0 ph p).2 ?_
+         intro _ h00; subst h00
+         rw [handshake_frozen]; exact hfz)
+  | fork r0 gov h =>
+    simp only [step, stepFork]
+    split
+    · exact keep
+    cases hr0 : getRa s r0 with
+    | none => exact keep
+    | some ra0 =>
+      simp only
+      repeat' split
+      all_goals first
+        | exact keep
+        | (refine upd r0 ra0 _ hr0 rfl ?_
+           intro _ _; rfl)
+  | plan r0 owner alloc dur te start =>
+    simp only [step, stepPlan]
+    split
+    · exact keep
+    cases hr0 : getRa s r0 with
+    | none => exact keep
+    | some ra0 =>
+      simp only
+      repeat' split
+      all_goals first
+        | exact keep
+        | (refine upd r0 ra0 _ hr0 rfl ?_
+           intro _ h00; subst h00; exact hfz)
+  | setgi r0 _ _ | force r0 _ _ | enable r0 _ | seq r0 | link r0 | canon r0 | premd r0 | chopen r0 _ =>
+    simp only [step, stepSetgi, stepForce, stepEnable, stepSeq, stepLink, stepCanon, stepPremd, stepChopen]
+    cases hr0 : getRa s r0 with
+    | none => first | exact keep | (repeat' split) <;> exact keep
+    | some ra0 =>
+      simp only
+      repeat' split
+      all_goals first
+        | exact keep
+        | (refine ⟨ra, ?_, hfz⟩; exact hg)
+        | (refine upd r0 ra0 _ hr0 rfl ?_
+           intro _ h00; subst h00; exact hfz)
+
+/-- **frozen_until_update** — a canonical client frozen by a hard fork stays frozen along every op sequence
+    that contains no state update of that rollapp: nothing but the rollapp's next state update re-opens. -/
+theorem frozen_until_update (s : St) (ops : List Op) (r : Nat) (ra : Ra) (hg : getRa s r = some ra)
+    (hfz : ra.frozen = true) (hops : ∀ op ∈ ops, ∀ n, op ≠ .update r n) :
+    ∃ ra', getRa (run s ops) r = some ra' ∧ ra'.frozen = true := by
+  induction ops generalizing s ra with
+  | nil => exact ⟨ra, hg, hfz⟩
+  | cons op ops ih =>
+    simp only [run, List.foldl_cons]
+    obtain ⟨ra1, hg1, hf1⟩ := step_frozen s op r ra hg hfz (hops op (by simp))
+    exact ih _ ra1 hg1 hf1 (fun o ho => hops o (by simp [ho]))
+
 -- ------------------------------------------------------------------------------------------------ non-vacuity
 
 /-- launch, link, 12 blocks of state, handshake at proof height 7 -/
